@@ -194,3 +194,42 @@ Example real_events_tree :
   /\ Parser.parse cfg_strict conv_c05 u_tree (Some root_tree)
        (pump (expected_of conv_c05 (EventGen.generate false conv_c05 u_tree o_tree))) = Parser.Ok o_tree [].
 Proof. repeat split; vm_compute; reflexivity. Qed.
+
+(* ---------------------------------------------------------------- subclass instances (xsi:type) *)
+Example guards_inh :
+  wf_model u_inh root_inh = true
+  /\ fits conv_c05 u_inh ok_c05 py_isspace 2 root_inh o_inh = true
+  /\ exact_classes u_inh 2 root_inh o_inh = false.
+Proof. repeat split; vm_compute; reflexivity. Qed.
+
+Definition expected_inh : option XmlNs.enode :=
+  expected_of conv_c05 (EventGen.generate false conv_c05 u_inh o_inh).
+
+Example real_events_inh :
+  (match expected_inh with Some e => reads_b e pevs_inh_native | None => false end) = true
+  /\ (match expected_inh with Some e => reads_b e pevs_inh_lxml | None => false end) = true
+  /\ Parser.parse cfg_strict conv_c05 u_inh (Some root_inh) pevs_inh_native = Parser.Ok o_inh []
+  /\ Parser.parse cfg_strict conv_c05 u_inh (Some root_inh) pevs_inh_lxml = Parser.Ok o_inh [].
+Proof. repeat split; vm_compute; reflexivity. Qed.
+
+(* known finding C01-F8: R.item : Optional[Base] holding an instance of the subclass `item`, whose type
+   qname equals the element name of the field: EventGenerator.real_xsi_type drops the xsi:type
+   attribute, and the parser builds the declared class (strict: ParserError, unknown attribute y).
+   Metadata inside wf_model; the instance is outside fits only by the clause `t <> v_qname v` of
+   derived_ok; the faithful models agree with the real parser on the real events *)
+Definition composition_xdrop : Parser.outcome :=
+  Parser.parse cfg_strict conv_c05 u_xdrop (Some root_xdrop)
+    (pump (expected_of conv_c05 (EventGen.generate false conv_c05 u_xdrop o_xdrop))).
+Definition has_xsi_type_event (r : EventGen.gres (list wevent)) : bool :=
+  match r with
+  | EventGen.Ok evs => existsb (fun e => match e with WAttr q _ => str_eqb q XSI_TYPE | _ => false end) evs
+  | EventGen.Err _ => false
+  end.
+Theorem xsi_type_dropped_refuted :
+  wf_model u_xdrop root_xdrop = true
+  /\ fits conv_c05 u_xdrop ok_c05 py_isspace 2 root_xdrop o_xdrop = false
+  /\ has_xsi_type_event (EventGen.generate false conv_c05 u_xdrop o_xdrop) = false
+  /\ ParserCorr.outcome_eqb composition_xdrop (Parser.Ok o_xdrop []) = false
+  /\ ParserCorr.outcome_eqb (Parser.parse cfg_strict conv_c05 u_xdrop (Some root_xdrop) pevs_xdrop) (Parser.Ok o_xdrop []) = false
+  /\ ParserCorr.outcome_eqb composition_xdrop (Parser.parse cfg_strict conv_c05 u_xdrop (Some root_xdrop) pevs_xdrop) = true.
+Proof. repeat split; vm_compute; reflexivity. Qed.
